@@ -16,7 +16,7 @@ META = {
     ),
     "anchors": ["abelian_core.AbelianArray.copy", "abelian_core.AbelianArray.copy_with", "fermionic_core.FermionicArray.copy", "fermionic_core.FermionicArray.copy_with", "fermionic_core.FermionicArray.transpose", "block_core.BlockBase._binary_blockwise_op", "fermionic_core.tensordot_fermionic", "fermionic_core.FermionicArray.phase_sync"],
     "floors": {
-        "quick": {"evaluations": 30000, "distinct_nontrivial": 5000, "tables": {"monitor/operand-snapshots": 15000, "monitor/inplace-vs-outofplace": 3000, "monitor/aliasing-probes": 3000, "monitor/quiescent-sweep": 1500, "kind/fermionic": 8000}},
+        "quick": {"evaluations": 30000, "distinct_nontrivial": 5000, "tables": {"monitor/operand-snapshots": 15000, "monitor/inplace-vs-outofplace": 3000, "monitor/aliasing-probes": 3000, "monitor/quiescent-sweep": 1500, "kind/fermionic": 8000, "feature/mixed-dtype-operand": 300}},
         "thorough": {"evaluations": 800000, "distinct_nontrivial": 80000},
     },
     "wall": {"quick": 100, "thorough": 1700},
@@ -130,6 +130,13 @@ def run_program(ctx, rng):
 
     for _ in range(rng.randint(2, 4)):
         v = prog.fresh()
+        if dtype == "complex128" and len(v.blocks) >= 2 and rng.random() < 0.4:
+            # blocks of mixed element type, as left behind by real + complex on arrays with
+            # different stored sectors: some blocks real, the others complex
+            keys = list(v.blocks)
+            for k_ in rng.sample(keys, rng.randint(1, len(keys) - 1)):
+                v.blocks[k_] = np.ascontiguousarray(np.asarray(v.blocks[k_]).real)
+            ctx.count("feature", "mixed-dtype-operand")
         prog.pool.append(v)
         register(v)
     trace = []
